@@ -1036,6 +1036,14 @@ static void probes(void)
             snprintf(sig, sizeof sig, "C16/fd-not-only-readable/tp=%s", g_tp);
             V("C16", sig, "xcm_fd of %s reports events 0x%x", x->name, m);
         }
+        /* the same with both conditions awaited: one of them (SENDABLE) is met */
+        API("xcm_await", 1, xcm_await(x->s, XCM_SO_SENDABLE | XCM_SO_RECEIVABLE));
+        m = poll3(x->fd0);
+        mc_count(0, 1);
+        if (!(m & POLLIN)) {
+            snprintf(sig, sizeof sig, "C16/not-readable-though-sendable/awaiting=both/tp=%s", g_tp);
+            V("C16", sig, "%s: writable established connection awaiting SENDABLE|RECEIVABLE, xcm_fd not readable", x->name);
+        }
         API("xcm_await", 1, xcm_await(x->s, 0));
         check_fd_stable(x);
     }
